@@ -1,7 +1,6 @@
 package rules
 
 import (
-	"strconv"
 	"fmt"
 	"go/token"
 	"go/types"
@@ -9,6 +8,7 @@ import (
 	"regexp"
 	"regexp/syntax"
 	"sort"
+	"strconv"
 	"strings"
 
 	"golang.org/x/tools/go/ssa"
@@ -22,6 +22,8 @@ func init() {
 		Doc: "labels, arities and keys written by the encoders equal those accepted by the decoders", Run: runCodTab})
 	reg(&core.RuleInfo{Name: "DEC-PANIC-CG", Props: []string{"C10"}, Engine: "CG", Floor: 1, Confirmed: 4,
 		Doc: "no panicking construct is reachable from the decoders", Run: runDecPanic})
+	reg(&core.RuleInfo{Name: "DEC-FILLED", Props: []string{"C10"}, Engine: "PROV", Floor: 20, Confirmed: 39,
+		Doc: "pointers inside a decoded value are never left nil: no encoding/json destination is a pointer to a (container of) message pointer(s), and every pointer stored into a decoded value is freshly allocated", Run: runDecFilled})
 	reg(&core.RuleInfo{Name: "DEC-BOUNDS", Props: []string{"C10"}, Engine: "INT", Floor: 20, Confirmed: 40,
 		Doc: "index and slice expressions in the decoders are in range by dominating length facts", Run: runDecBounds})
 }
@@ -50,7 +52,8 @@ func encoderShape(fn *ssa.Function) (label string, arity int, variable bool, ok 
 		switch x := an.LoadedValue(ia.X).(type) {
 		case *ssa.Alloc:
 			if arr, isArr := x.Type().(*types.Pointer).Elem().Underlying().(*types.Array); isArr {
-				label, arity, variable, ok = s, int(arr.Len()), false, true
+				// `[]any{label, id}` extended by a loop of appends (possibly after slices.Grow) is label, id, then n more
+				label, arity, variable, ok = s, int(arr.Len()), appendedInLoop(x), true
 			}
 		case *ssa.MakeSlice:
 			if b, isB := x.Len.(*ssa.BinOp); isB && b.Op == token.ADD {
@@ -63,6 +66,57 @@ func encoderShape(fn *ssa.Function) (label string, arity int, variable bool, ok 
 		}
 	})
 	return
+}
+
+// appendedInLoop: the slice literal backed by arr is the base of an append
+// inside a loop (directly, through the loop's phi, or after slices.Grow/Clip).
+func appendedInLoop(arr *ssa.Alloc) bool {
+	fn := arr.Parent()
+	var reaches func(v ssa.Value, seen map[ssa.Value]bool) bool
+	reaches = func(v ssa.Value, seen map[ssa.Value]bool) bool {
+		if v == nil || seen[v] {
+			return false
+		}
+		seen[v] = true
+		switch x := v.(type) {
+		case *ssa.Alloc:
+			return x == arr
+		case *ssa.Slice:
+			return reaches(x.X, seen)
+		case *ssa.Phi:
+			for _, e := range x.Edges {
+				if reaches(e, seen) {
+					return true
+				}
+			}
+		case *ssa.UnOp:
+			if x.Op == token.MUL {
+				return reaches(an.LoadedValue(x), seen)
+			}
+		case *ssa.Call:
+			if b, isB := x.Call.Value.(*ssa.Builtin); isB && b.Name() == "append" {
+				return reaches(x.Call.Args[0], seen)
+			}
+			if g := an.StaticCallee(&x.Call); g != nil && len(x.Call.Args) > 0 {
+				switch an.FuncFullName(g) {
+				case "slices.Grow", "slices.Clip":
+					return reaches(x.Call.Args[0], seen)
+				}
+			}
+		}
+		return false
+	}
+	found := false
+	an.Instrs(fn, func(in ssa.Instruction) {
+		call, isCall := in.(*ssa.Call)
+		if !isCall || !an.InLoop(call.Block()) {
+			return
+		}
+		if b, isB := call.Call.Value.(*ssa.Builtin); isB && b.Name() == "append" && reaches(call.Call.Args[0], map[ssa.Value]bool{}) {
+			found = true
+		}
+	})
+	return found
 }
 
 // decoderShape: what a decoder requires in order to succeed (return a nil
@@ -669,4 +723,155 @@ func runDecBounds(c *core.Ctx) {
 			}
 		})
 	}
+}
+
+// ---------------------------------------------------------------- DEC-FILLED
+
+// modStructPtr: t is *S for a struct type S declared in the module.
+func modStructPtr(t types.Type) bool {
+	p, ok := t.Underlying().(*types.Pointer)
+	if !ok {
+		return false
+	}
+	n, ok := p.Elem().(*types.Named)
+	if !ok || n.Obj().Pkg() == nil {
+		return false
+	}
+	if _, isStruct := n.Underlying().(*types.Struct); !isStruct {
+		return false
+	}
+	pp := n.Obj().Pkg().Path()
+	return pp == core.ModulePath || strings.HasPrefix(pp, core.ModulePath+"/")
+}
+
+// holdsNullablePtr: a value of type t decoded by encoding/json can end up
+// holding a nil *S (JSON null sets a pointer to nil without calling S's
+// decoder): t is *S, or a slice / array / map / pointer chain leading to one.
+func holdsNullablePtr(t types.Type, depth int) bool {
+	if depth > 3 {
+		return false
+	}
+	if modStructPtr(t) {
+		return true
+	}
+	switch x := t.Underlying().(type) {
+	case *types.Slice:
+		return holdsNullablePtr(x.Elem(), depth+1)
+	case *types.Array:
+		return holdsNullablePtr(x.Elem(), depth+1)
+	case *types.Map:
+		return holdsNullablePtr(x.Elem(), depth+1)
+	case *types.Pointer:
+		return holdsNullablePtr(x.Elem(), depth+1)
+	}
+	return false
+}
+
+func runDecFilled(c *core.Ctx) {
+	P := c.P
+	fns := decoderFuncs(c)
+	c.CountFuncs(len(fns))
+	seq := map[string]int{}
+	for _, fn := range fns {
+		an.Instrs(fn, func(in ssa.Instruction) {
+			switch x := in.(type) {
+			case *ssa.Call:
+				g := an.StaticCallee(&x.Call)
+				if g == nil {
+					return
+				}
+				name := an.FuncFullName(g)
+				if name != "encoding/json.Unmarshal" && name != "(*encoding/json.Decoder).Decode" {
+					return
+				}
+				dest := x.Call.Args[len(x.Call.Args)-1]
+				if mi, ok := dest.(*ssa.MakeInterface); ok {
+					dest = mi.X
+				}
+				c.CountSites(1)
+				pt, isPtr := dest.Type().Underlying().(*types.Pointer)
+				what := clip(types.TypeString(dest.Type(), func(p *types.Package) string { return p.Name() }), 50)
+				k := fname(c, fn) + "/" + what
+				seq[k]++
+				construct := fmt.Sprintf("json-dest %s#%d", what, seq[k])
+				if !isPtr {
+					// a destination that is not statically a pointer (an `any` handed on): not decided here
+					c.Check(!holdsNullablePtr(dest.Type(), 0), nil, fname(c, fn), construct, P.Pos(x.Pos()), "destination of static type "+types.TypeString(dest.Type(), nil)+" cannot hold a message pointer",
+						"encoding/json decodes into a value of type "+types.TypeString(dest.Type(), nil)+" that can hold a *message pointer: JSON null leaves it nil in an accepted message")
+					return
+				}
+				c.Check(!holdsNullablePtr(pt.Elem(), 0), nil, fname(c, fn), construct, P.Pos(x.Pos()),
+					"encoding/json fills a "+types.TypeString(pt.Elem(), nil)+": no message pointer that JSON null could leave nil",
+					"encoding/json decodes into a "+types.TypeString(pt.Elem(), nil)+": for the JSON value null it sets the pointer to nil without calling the type's own decoder, so an accepted message carries a nil "+types.TypeString(pt.Elem(), nil)+" (not a completely filled value; later reads of its fields panic)")
+			case *ssa.Store:
+				if !modStructPtr(x.Val.Type()) {
+					return
+				}
+				switch x.Addr.(type) {
+				case *ssa.FieldAddr, *ssa.IndexAddr:
+				default:
+					return
+				}
+				c.CountSites(1)
+				var bad []string
+				for _, src := range an.Sources(fn, x.Val) {
+					switch y := src.(type) {
+					case *ssa.Alloc:
+						continue
+					case *ssa.Call:
+						if g := an.StaticCallee(&y.Call); an.InModuleFn(g) && freshResult(g, 0) && !mayReturnNil(g) {
+							continue
+						}
+					}
+					bad = append(bad, clip(an.PathOf(src), 40))
+				}
+				what := clip(addrSuffixGeneric(x.Addr), 40)
+				k := fname(c, fn) + "/" + what
+				seq[k]++
+				c.Check(len(bad) == 0, nil, fname(c, fn), fmt.Sprintf("store %s#%d", what, seq[k]), P.Pos(x.Pos()),
+					"the pointer stored into the decoded value is a fresh allocation",
+					fmt.Sprintf("a pointer stored into a decoded value may be nil or shared (%s): the accepted message is not a completely filled value of its own", strings.Join(bad, ", ")))
+			}
+		})
+	}
+	// every message type with a pointer field has a decoder that stores it
+	for _, fn := range fns {
+		if fn.Name() != "UnmarshalJSON" || fn.Signature.Recv() == nil {
+			continue
+		}
+		rp, ok := fn.Signature.Recv().Type().Underlying().(*types.Pointer)
+		if !ok {
+			continue
+		}
+		st, ok := rp.Elem().Underlying().(*types.Struct)
+		if !ok {
+			continue
+		}
+		for i := 0; i < st.NumFields(); i++ {
+			f := st.Field(i)
+			if !modStructPtr(f.Type()) {
+				continue
+			}
+			stored := false
+			an.Region(fn, nil, func(o an.Occ) {
+				if s, isStore := o.In.(*ssa.Store); isStore {
+					if fa, isFA := s.Addr.(*ssa.FieldAddr); isFA && fieldNameOf(fa) == an.FieldNameHook(st, i) && modStructPtr(s.Val.Type()) {
+						stored = true
+					}
+				}
+			})
+			c.Check(stored, nil, fname(c, fn), "field "+an.FieldNameHook(st, i), P.Pos(fn.Pos()), "the decoder stores the pointer field", "the decoder never stores the pointer field "+f.Name()+": an accepted message carries a nil pointer")
+		}
+	}
+}
+
+// mayReturnNil: some return of g hands back a nil constant as first result.
+func mayReturnNil(g *ssa.Function) bool {
+	for _, rb := range an.ReturnBlocks(g) {
+		rv := an.ReturnValues(an.LastInstr(rb).(*ssa.Return))
+		if len(rv) > 0 && an.IsNilConst(rv[0]) {
+			return true
+		}
+	}
+	return false
 }
